@@ -248,4 +248,22 @@ def run(ctx):
             r.ok("%s: the next update time is re-armed with the redraw" % adv.short)
         else:
             r.fail(adv, d.ast, "re-arm", "a redraw does not move the next update time forward: every later advance redraws")
+
+    # ---------------------------------------------------------------- R6
+    r = ctx.rule("C19-R6", "OWNER", "the caller owns the spinner's handle and stop event: the fields it uses to stop and join the thread are never "
+                 "rebound by code that runs on the spinner thread (a handle cleared by the dying spinner turns the caller's join into an AttributeError "
+                 "on one schedule - the end message is never drawn)", reference=2)
+    ts = cg.reachable(entries, stop=lambda f: f.cls is not pi)
+    for fld in (thread_attr, stop_attr):
+        bad = None
+        for f in [x for x in ts.values() if x.cls is pi]:
+            for node, kind, t in q.writes_to_self_attr(f, fld):
+                if kind == "rebind":
+                    bad = (f, node)
+        if bad:
+            f, node = bad
+            r.fail(f, node, norm(node) + " on the spinner thread", "%s, which runs on the spinner thread, rebinds self.%s while the caller reads it to stop and join the spinner: between the caller's "
+                   "set() and join() the field can change under it" % (f.short, fld))
+        else:
+            r.ok("self.%s is rebound only on the caller's side" % fld)
     return ctx.results
